@@ -42,7 +42,8 @@ def obligations(ctx):
             if not any(k in o.name for k in ("raises", "filed", "reverse-complement", "walk", "duplicate", "loop")):
                 continue
         keep.append(o)
-    return keep + lemmas(ctx)
+    from props._shared import typing_state_census
+    return list(keep + lemmas(ctx)) + [typing_state_census(ctx, 'C18')]
 
 
 def lemmas(ctx):
